@@ -73,12 +73,12 @@ func TestVerifC03(t *testing.T) {
 		Scenario: c03Scenario,
 		// systematic part: registry kind x family x content kind x every threshold length; the
 		// remaining choices (cuts, pacing, prober behaviour, clients, schedule) are drawn from the seed
-		EnumN:  func(string) int { return len(c03Enum) },
-		EnumAt: func(_ string, i int) []int { return c03Enum[i] },
-		Runs:     map[string]int{"quick": 25000, "thorough": 800000},
-		LeakSig:  "",
-		Real:     []string{"cmd/application connManager.handleNewTCPConn (read loop, classification deadline, discard paths)", "min / prefix (all default prefixes) / obfs4 station transports", "RegistrationManager + ingest pipeline (registrations are ingested through HandleRegUpdates)", "client transports producing the genuine flights that are then corrupted"},
-		Stub:     []string{"TCP connection (simnet: segmentation, pacing, FIN/RST by the prober)", "liveness probes (table)", "detector (recorder)", "ZMQ (harness writes into the ingest channel)", "accept loop / original-destination lookup of handleNewConn (harness passes the phantom and closes the connection when the handler returns)"},
+		EnumN:   func(string) int { return len(c03Enum) },
+		EnumAt:  func(_ string, i int) []int { return c03Enum[i] },
+		Runs:    map[string]int{"quick": 25000, "thorough": 800000},
+		LeakSig: "",
+		Real:    []string{"cmd/application connManager.handleNewTCPConn (read loop, classification deadline, discard paths)", "min / prefix (all default prefixes) / obfs4 station transports", "RegistrationManager + ingest pipeline (registrations are ingested through HandleRegUpdates)", "client transports producing the genuine flights that are then corrupted"},
+		Stub:    []string{"TCP connection (simnet: segmentation, pacing, FIN/RST by the prober)", "liveness probes (table)", "detector (recorder)", "ZMQ (harness writes into the ingest channel)", "accept loop / original-destination lookup of handleNewConn (harness passes the phantom and closes the connection when the handler returns)"},
 		Rule: "enumerated: registry kind (3) x family (2) x content kind (6) x each of the 24 threshold lengths, other choices seeded; random: probe stream = {random bytes, constant fills (00/ff/80/40/7f/01) alone and after a static prefix, every default static prefix + garbage, protocol look-alikes, genuine min/prefix/obfs4-sized flights of a REGISTERED client with one bit flipped inside the tag, threshold lengths} x 24 lengths 0..16 KiB x random k-cut segmentation x pacing (0..4.9 s pauses) x prober behaviour {hold, FIN, RST} x registry {empty, registrations on other phantoms only, 1-4 registrations (all transports) on the probed phantom}. " +
 			"Each run is executed twice (twin): once with the generated content and once with uniformly random bytes of the same lengths, same schedule, same seeded deadline; the observable reaction must be identical. Runs with registrations on the probed phantom are executed a third time with an empty registry and must again react identically. non-trivial = the probe reached the read loop with at least one registration on the probed phantom; distinct = (content kind, length, registry kind, prober behaviour, cuts, schedule) signatures",
 		Assume: []string{"harness test files built with //go:debug asynctimerchan=0", "the prober never holds a valid tag: bit flips are applied inside the tag / mark bytes only"},
@@ -161,6 +161,13 @@ func c03Run(r *sim.Run, tp *sim.Tape, variant int) *c03Obs {
 	flipBit := tp.Choose("flipbit", 64*8)
 	garbage := tp.Bytes("garbage", 16400)
 	victim := tp.Choose("victim", 4)
+	// GeoIP: the handler's per-country / per-ASN statistics paths only run for known addresses
+	// (failing lookups are not generated: the handler returns at once when a lookup fails, which
+	// closes the connection early, but C03 quantifies over probe streams and registries, not over
+	// faults of the station's own databases; DESIGN.md section 10 lists it as an observation)
+	if g := tp.Choose("geoip", 3); g != 0 {
+		w.rm.GeoIP = stGeo{g}
+	}
 
 	obs := &c03Obs{}
 	var pc *stConn
